@@ -4,7 +4,7 @@
 # with and without the change. Uses a scratch worktree that is removed afterwards.
 set -u
 d="$1"; tag="$(echo "$d" | tr '/' '_')-$$"
-wt="/var/tmp/seedvf-$tag"
+wt="/var/tmp/seedvf-$tag"; export REPO="$wt"
 export GOFLAGS=-mod=mod GOPROXY=off GOSUMDB=off GOTOOLCHAIN=local GOMODCACHE=/root/go/pkg/mod
 export TMPDIR="/var/tmp/seedvf-tmp-$tag"; mkdir -p "$TMPDIR"
 cleanup() { git -C /repo worktree remove --force "$wt" >/dev/null 2>&1; rm -rf "$wt" "$TMPDIR"; }
